@@ -1860,6 +1860,11 @@ func (ctx Ctx) refExpr(s ast.Expr) coq.Expr {
 		if info.throughPointer {
 			structExpr = ctx.expr(s.X)
 		} else {
+			if root := ctx.valuePathRoot(s.X); root != nil && !ctx.isPtrWrapped(root) {
+				// the struct is a let-bound value, not a location whose
+				// fields have addresses
+				ctx.unsupported(s, "address of a field of %s, which is not declared with var", root.Name)
+			}
 			structExpr = ctx.refExpr(s.X)
 		}
 		return coq.NewCallExpr(coq.GallinaIdent("struct.fieldRef"), coq.StructDesc(info.name),
